@@ -102,6 +102,9 @@ def loop_kinds(prog, func):
         elif guard_switch(body, head, blocks) is not None:
             # `while a < b { .. }`: decided by the caller from the engine's ranking argument
             info.update(kind='while-cmp', ok=False, why='`while` with a comparison guard')
+        elif rotated_guard(body, head, blocks) is not None:
+            # `loop { ..; if y == last { break } y -= 1; }`: decided by the caller from the engine's ranking argument
+            info.update(kind='while-cmp', ok=False, why='counting loop with its (in)equality test after the body')
         else:
             info.update(kind='other', ok=False, why='loop form not recognised (head terminator %s)' % (hname or ht['k']))
         out.append(info)
@@ -150,6 +153,42 @@ def guard_switch(body, head, blocks):
             return None
         b = nxt[0]
     return None
+
+
+def rotated_guard(body, head, blocks):
+    """a counting loop whose test sits between the body and the step (`loop { ..; if y == last { break } y -= 1; }`):
+    no test at the head, exactly one edge leaves the loop, from a block that switches on an (in)equality it computes
+    itself.  -> (guard block, continue-iff-true) or None"""
+    if guard_switch(body, head, blocks) is not None:
+        return None
+    ht = body.blocks[head]['term']
+    if ht['k'] == 'call' and (callee_path(ht) or '').endswith('::next'):
+        return None
+    exits = [(b, x) for b in sorted(blocks) for x in body.succs(b)
+             if x not in blocks and not body.blocks[x].get('cleanup') and body.blocks[x]['term']['k'] != 'unreachable']
+    if len(exits) != 1:
+        return None
+    b, out = exits[0]
+    t = body.blocks[b]['term']
+    if t['k'] != 'switch' or t['discr']['k'] not in ('copy', 'move') or t['discr']['place']['proj']:
+        return None
+    dl = t['discr']['place']['local']
+    cmp_ = [s for s in body.blocks[b]['stmts'] if s['k'] == 'assign' and s['place']['local'] == dl and not s['place']['proj']
+            and s['rv']['k'] == 'binop' and s['rv']['op'] in ('Eq', 'Ne')]
+    tg = t['targets']
+    if not cmp_ or len(tg) != 1 or tg[0][0] != 0:
+        return None
+    zero_in, other_in = tg[0][1] in blocks, t['otherwise'] in blocks
+    if other_in and not zero_in:
+        return (b, True)
+    if zero_in and not other_in:
+        return (b, False)
+    return None
+
+
+def callee_path(t):
+    f = t.get('func') or {}
+    return (f.get('fn') or {}).get('path', '') if isinstance(f, dict) else ''
 
 
 def _same_recv(body, t1, t2):
